@@ -19,6 +19,44 @@ Inductive gob_rel {A B} (R : A -> B -> Prop) : gob A -> gob B -> Prop :=
 | gob_rel_partial : gob_rel R GPartial GPartial
 | gob_rel_ok a b : R a b -> gob_rel R (GOk a) (GOk b).
 
+(* writeRecord = choose the segment (seal, swap) ; append -- for any index (cf. DBLemmas.wr_prelude) *)
+Definition gprelude {I} (ops : idx_ops I) (P : params) (r : rec) (s : @DB.st I) (m : @DB.mem I) :
+    @DB.st I * @DB.mem I :=
+  let need_swap := match cur_seg m with
+                   | None => true
+                   | Some g => sm_full (g_meta g) || (p_maxseg P <? g_size g + rsize r)
+                   end in
+  if need_swap
+  then let '(s0, m0) := match cur_seg m with
+                        | Some g => seal ops (g_id g) s m
+                        | None => (s, m)
+                        end in
+       swap_segment ops s0 m0
+  else (s, m).
+
+Definition gtail {I} (ops : idx_ops I) (r : rec) (s1 : @DB.st I) (m1 : @DB.mem I) :
+    option (@DB.st I * @DB.mem I * N * N) :=
+  match cur_seg m1 with
+  | None => None
+  | Some g =>
+    match find_dseg (g_id g) (s_disk s1) with
+    | None => None
+    | Some f =>
+      if negb ((f_seq f =? g_seq g) && (flen f =? g_size g)) then None
+      else
+        let off := g_size g in
+        let s2 := emit ops (EAppend (g_id g) (g_seq g) off r) s1 in
+        let m2 := set_msegs m1 (upd_mseg (g_id g)
+                    (fun g => set_gmeta (set_gsize g (off + rsize r)) (count_rec r (g_meta g)))
+                    (m_segs m1)) in
+        Some (s2, m2, g_id g, u32 off)
+    end
+  end.
+
+Lemma write_record_g {I} (ops : idx_ops I) P r s m :
+  write_record ops P r s m = let '(s1, m1) := gprelude ops P r s m in gtail ops r s1 m1.
+Proof. reflexivity. Qed.
+
 Section Rel.
 Context {I1 I2 : Type}.
 Variable R : I1 -> I2 -> Prop.
@@ -29,42 +67,42 @@ Notation st1 := (@DB.st I1).     Notation st2 := (@DB.st I2).
 Notation fsev1 := (@DB.fsev I1). Notation fsev2 := (@DB.fsev I2).
 
 (* equal in every component; the index values are related *)
-Inductive disk_rel : disk1 -> disk2 -> Prop :=
+Inductive gdisk_rel : disk1 -> disk2 -> Prop :=
 | DiskRel segs orph i1 i2 ov g1 g2 dbm lk bac :
     opt_rel R i1 i2 -> gob_rel R g1 g2 ->
-    disk_rel {| d_segs := segs; d_orphans := orph; d_index := i1; d_overflow := ov; d_imeta := g1;
+    gdisk_rel {| d_segs := segs; d_orphans := orph; d_index := i1; d_overflow := ov; d_imeta := g1;
                 d_dbmeta := dbm; d_lock := lk; d_bac := bac |}
              {| d_segs := segs; d_orphans := orph; d_index := i2; d_overflow := ov; d_imeta := g2;
                 d_dbmeta := dbm; d_lock := lk; d_bac := bac |}.
 
-Inductive ev_rel : fsev1 -> fsev2 -> Prop :=
-| er_create f : ev_rel (ECreate f) (ECreate f)
-| er_header f : ev_rel (EHeader f) (EHeader f)
-| er_append id seq off r : ev_rel (EAppend id seq off r) (EAppend id seq off r)
-| er_index i1 i2 : R i1 i2 -> ev_rel (EIndex i1) (EIndex i2)
-| er_gobseg id seq m : ev_rel (EGobSeg id seq m) (EGobSeg id seq m)
-| er_gobindex i1 i2 : R i1 i2 -> ev_rel (EGobIndex i1) (EGobIndex i2)
-| er_gobdb sd : ev_rel (EGobDb sd) (EGobDb sd)
-| er_trunc f n : ev_rel (ETrunc f n) (ETrunc f n)
-| er_rename f g : ev_rel (ERename f g) (ERename f g)
-| er_remove f : ev_rel (ERemove f) (ERemove f)
-| er_sync f : ev_rel (ESync f) (ESync f).
+Inductive gev_rel : fsev1 -> fsev2 -> Prop :=
+| er_create f : gev_rel (ECreate f) (ECreate f)
+| er_header f : gev_rel (EHeader f) (EHeader f)
+| er_append id seq off r : gev_rel (EAppend id seq off r) (EAppend id seq off r)
+| er_index i1 i2 : R i1 i2 -> gev_rel (EIndex i1) (EIndex i2)
+| er_gobseg id seq m : gev_rel (EGobSeg id seq m) (EGobSeg id seq m)
+| er_gobindex i1 i2 : R i1 i2 -> gev_rel (EGobIndex i1) (EGobIndex i2)
+| er_gobdb sd : gev_rel (EGobDb sd) (EGobDb sd)
+| er_trunc f n : gev_rel (ETrunc f n) (ETrunc f n)
+| er_rename f g : gev_rel (ERename f g) (ERename f g)
+| er_remove f : gev_rel (ERemove f) (ERemove f)
+| er_sync f : gev_rel (ESync f) (ESync f).
 
-Inductive mem_rel : mem1 -> mem2 -> Prop :=
+Inductive gmem_rel : mem1 -> mem2 -> Prop :=
 | MemRel segs cur rem mx i1 i2 seed : R i1 i2 ->
-    mem_rel {| m_segs := segs; m_cur := cur; m_cur_removed := rem; m_maxseq := mx; m_idx := i1;
+    gmem_rel {| m_segs := segs; m_cur := cur; m_cur_removed := rem; m_maxseq := mx; m_idx := i1;
                m_seed := seed |}
             {| m_segs := segs; m_cur := cur; m_cur_removed := rem; m_maxseq := mx; m_idx := i2;
                m_seed := seed |}.
 
-Inductive st_rel : st1 -> st2 -> Prop :=
+Inductive gst_rel : st1 -> st2 -> Prop :=
 | StRel m1 m2 d1 d2 t1 t2 :
-    opt_rel mem_rel m1 m2 -> disk_rel d1 d2 -> Forall2 ev_rel t1 t2 ->
-    st_rel {| s_mem := m1; s_disk := d1; s_trace := t1 |} {| s_mem := m2; s_disk := d2; s_trace := t2 |}.
+    opt_rel gmem_rel m1 m2 -> gdisk_rel d1 d2 -> Forall2 gev_rel t1 t2 ->
+    gst_rel {| s_mem := m1; s_disk := d1; s_trace := t1 |} {| s_mem := m2; s_disk := d2; s_trace := t2 |}.
 
 (* ---- the relations, component by component (for users who build related states by hand) ---- *)
 Lemma disk_rel_iff (d1 : disk1) (d2 : disk2) :
-  disk_rel d1 d2 <->
+  gdisk_rel d1 d2 <->
   d_segs d1 = d_segs d2 /\ d_orphans d1 = d_orphans d2 /\ opt_rel R (d_index d1) (d_index d2) /\
   d_overflow d1 = d_overflow d2 /\ gob_rel R (d_imeta d1) (d_imeta d2) /\
   d_dbmeta d1 = d_dbmeta d2 /\ d_lock d1 = d_lock d2 /\ d_bac d1 = d_bac d2.
@@ -72,102 +110,105 @@ Proof.
   split.
   - intros H. destruct H. cbn [d_segs d_orphans d_index d_overflow d_imeta d_dbmeta d_lock d_bac].
     repeat split; assumption.
-  - destruct d1, d2. cbn [d_segs d_orphans d_index d_overflow d_imeta d_dbmeta d_lock d_bac].
+  - destruct d1 as [a1 b1 c1 e1 f1 g1 h1 j1], d2 as [a2 b2 c2 e2 f2 g2 h2 j2]. cbn [d_segs d_orphans d_index d_overflow d_imeta d_dbmeta d_lock d_bac].
     intros (-> & -> & Hi & -> & Hg & -> & -> & ->). constructor; assumption.
 Qed.
 
 Lemma mem_rel_iff (m1 : mem1) (m2 : mem2) :
-  mem_rel m1 m2 <->
+  gmem_rel m1 m2 <->
   m_segs m1 = m_segs m2 /\ m_cur m1 = m_cur m2 /\ m_cur_removed m1 = m_cur_removed m2 /\
   m_maxseq m1 = m_maxseq m2 /\ R (m_idx m1) (m_idx m2) /\ m_seed m1 = m_seed m2.
 Proof.
   split.
   - intros H. destruct H. cbn [m_segs m_cur m_cur_removed m_maxseq m_idx m_seed]. repeat split; assumption.
-  - destruct m1, m2. cbn [m_segs m_cur m_cur_removed m_maxseq m_idx m_seed].
+  - destruct m1 as [a1 b1 c1 e1 f1 g1], m2 as [a2 b2 c2 e2 f2 g2]. cbn [m_segs m_cur m_cur_removed m_maxseq m_idx m_seed].
     intros (-> & -> & -> & -> & Hi & ->). constructor; assumption.
 Qed.
 
 Lemma st_rel_iff (s1 : st1) (s2 : st2) :
-  st_rel s1 s2 <->
-  opt_rel mem_rel (s_mem s1) (s_mem s2) /\ disk_rel (s_disk s1) (s_disk s2) /\
-  Forall2 ev_rel (s_trace s1) (s_trace s2).
+  gst_rel s1 s2 <->
+  opt_rel gmem_rel (s_mem s1) (s_mem s2) /\ gdisk_rel (s_disk s1) (s_disk s2) /\
+  Forall2 gev_rel (s_trace s1) (s_trace s2).
 Proof.
   split.
   - intros H. destruct H. cbn [s_mem s_disk s_trace]. repeat split; assumption.
-  - destruct s1, s2. cbn [s_mem s_disk s_trace]. intros (A & B & C). constructor; assumption.
+  - destruct s1 as [a1 b1 c1], s2 as [a2 b2 c2]. cbn [s_mem s_disk s_trace]. intros (A & B & C). constructor; assumption.
 Qed.
 
-Lemma st_rel_disk s1 s2 : st_rel s1 s2 -> disk_rel (s_disk s1) (s_disk s2).
+Lemma st_rel_disk s1 s2 : gst_rel s1 s2 -> gdisk_rel (s_disk s1) (s_disk s2).
 Proof. intros H. apply st_rel_iff in H. tauto. Qed.
-Lemma st_rel_trace s1 s2 : st_rel s1 s2 -> Forall2 ev_rel (s_trace s1) (s_trace s2).
+Lemma st_rel_trace s1 s2 : gst_rel s1 s2 -> Forall2 gev_rel (s_trace s1) (s_trace s2).
 Proof. intros H. apply st_rel_iff in H. tauto. Qed.
 
-Lemma st_rel_mem_cases s1 s2 : st_rel s1 s2 ->
+Lemma st_rel_mem_cases s1 s2 : gst_rel s1 s2 ->
   (s_mem s1 = None /\ s_mem s2 = None) \/
-  (exists m1 m2, s_mem s1 = Some m1 /\ s_mem s2 = Some m2 /\ mem_rel m1 m2).
+  (exists m1 m2, s_mem s1 = Some m1 /\ s_mem s2 = Some m2 /\ gmem_rel m1 m2).
 Proof.
   intros H. destruct H as [m1 m2 d1 d2 t1 t2 Hm _ _]. cbn [s_mem].
   destruct Hm as [|a b Hab]; [left; split; reflexivity|right; exists a, b; auto].
 Qed.
 
-Lemma mem_rel_segs m1 m2 : mem_rel m1 m2 -> m_segs m1 = m_segs m2.
+Lemma mem_rel_segs m1 m2 : gmem_rel m1 m2 -> m_segs m1 = m_segs m2.
 Proof. intros H. destruct H. reflexivity. Qed.
-Lemma mem_rel_cur m1 m2 : mem_rel m1 m2 -> m_cur m1 = m_cur m2.
+Lemma mem_rel_cur m1 m2 : gmem_rel m1 m2 -> m_cur m1 = m_cur m2.
 Proof. intros H. destruct H. reflexivity. Qed.
-Lemma mem_rel_maxseq m1 m2 : mem_rel m1 m2 -> m_maxseq m1 = m_maxseq m2.
+Lemma mem_rel_maxseq m1 m2 : gmem_rel m1 m2 -> m_maxseq m1 = m_maxseq m2.
 Proof. intros H. destruct H. reflexivity. Qed.
-Lemma mem_rel_seed m1 m2 : mem_rel m1 m2 -> m_seed m1 = m_seed m2.
+Lemma mem_rel_seed m1 m2 : gmem_rel m1 m2 -> m_seed m1 = m_seed m2.
 Proof. intros H. destruct H. reflexivity. Qed.
-Lemma mem_rel_idx m1 m2 : mem_rel m1 m2 -> R (m_idx m1) (m_idx m2).
+Lemma mem_rel_idx m1 m2 : gmem_rel m1 m2 -> R (m_idx m1) (m_idx m2).
 Proof. intros H. destruct H. assumption. Qed.
-Lemma mem_rel_cur_seg m1 m2 : mem_rel m1 m2 -> cur_seg m1 = cur_seg m2.
+Lemma mem_rel_cur_seg m1 m2 : gmem_rel m1 m2 -> cur_seg m1 = cur_seg m2.
 Proof. intros H. destruct H. reflexivity. Qed.
 
 (* ---- functions of the disk that never look inside the index value ---- *)
-Lemma find_dseg_rel d1 d2 id : disk_rel d1 d2 -> find_dseg id d1 = find_dseg id d2.
+Lemma find_dseg_rel d1 d2 id : gdisk_rel d1 d2 -> find_dseg id d1 = find_dseg id d2.
 Proof. intros H. destruct H. reflexivity. Qed.
-Lemma d_segs_rel d1 d2 : disk_rel d1 d2 -> d_segs d1 = d_segs d2.
+Lemma d_segs_rel d1 d2 : gdisk_rel d1 d2 -> d_segs d1 = d_segs d2.
 Proof. intros H. destruct H. reflexivity. Qed.
-Lemma read_kv_rel d1 d2 sl : disk_rel d1 d2 -> read_kv d1 sl = read_kv d2 sl.
+Lemma read_kv_rel d1 d2 sl : gdisk_rel d1 d2 -> read_kv d1 sl = read_kv d2 sl.
 Proof. intros H. destruct H. reflexivity. Qed.
 (* equality of FUNCTIONS (no extensionality needed): the callback handed to the index is the same *)
-Lemma matchf_rel d1 d2 k : disk_rel d1 d2 -> matchf d1 k = matchf d2 k.
+Lemma matchf_rel d1 d2 k : gdisk_rel d1 d2 -> matchf d1 k = matchf d2 k.
 Proof. intros H. destruct H. reflexivity. Qed.
-Lemma read_slots_rel d1 d2 l : disk_rel d1 d2 -> read_slots d1 l = read_slots d2 l.
+Lemma read_slots_rel d1 d2 l : gdisk_rel d1 d2 -> read_slots d1 l = read_slots d2 l.
+Proof.
+  intros H. induction l as [|sl l IH]; [reflexivity|].
+  cbn [read_slots]. rewrite IH, (read_kv_rel _ _ sl H). reflexivity.
+Qed.
+Lemma seg_names_rel d1 d2 : gdisk_rel d1 d2 -> seg_names d1 = seg_names d2.
 Proof. intros H. destruct H. reflexivity. Qed.
-Lemma seg_names_rel d1 d2 : disk_rel d1 d2 -> seg_names d1 = seg_names d2.
-Proof. intros H. destruct H. reflexivity. Qed.
-Lemma dir_rel d1 d2 : disk_rel d1 d2 -> dir d1 = dir d2.
+Lemma dir_rel d1 d2 : gdisk_rel d1 d2 -> dir d1 = dir d2.
 Proof.
   intros H. destruct H as [segs orph i1 i2 ov g1 g2 dbm lk bac Hi Hg].
   unfold dir, seg_names. cbn [d_segs d_orphans d_index d_overflow d_imeta d_dbmeta d_lock d_bac].
   destruct Hi; destruct Hg; reflexivity.
 Qed.
-Lemma exists_file_rel d1 d2 f : disk_rel d1 d2 -> exists_file d1 f = exists_file d2 f.
+Lemma exists_file_rel d1 d2 f : gdisk_rel d1 d2 -> exists_file d1 f = exists_file d2 f.
 Proof. intros H. unfold exists_file. rewrite (dir_rel _ _ H). reflexivity. Qed.
-Lemma total_recs_rel d1 d2 : disk_rel d1 d2 -> total_recs d1 = total_recs d2.
+Lemma total_recs_rel d1 d2 : gdisk_rel d1 d2 -> total_recs d1 = total_recs d2.
 Proof. intros H. destruct H. reflexivity. Qed.
 
 (* ---- updates of the in-memory state ---- *)
-Lemma set_msegs_rel m1 m2 l : mem_rel m1 m2 -> mem_rel (set_msegs m1 l) (set_msegs m2 l).
+Lemma set_msegs_rel m1 m2 l : gmem_rel m1 m2 -> gmem_rel (set_msegs m1 l) (set_msegs m2 l).
 Proof. intros H. destruct H. constructor. assumption. Qed.
-Lemma set_cur_rel m1 m2 c b : mem_rel m1 m2 -> mem_rel (set_cur m1 c b) (set_cur m2 c b).
+Lemma set_cur_rel m1 m2 c b : gmem_rel m1 m2 -> gmem_rel (set_cur m1 c b) (set_cur m2 c b).
 Proof. intros H. destruct H. constructor. assumption. Qed.
-Lemma set_maxseq_rel m1 m2 n : mem_rel m1 m2 -> mem_rel (set_maxseq m1 n) (set_maxseq m2 n).
+Lemma set_maxseq_rel m1 m2 n : gmem_rel m1 m2 -> gmem_rel (set_maxseq m1 n) (set_maxseq m2 n).
 Proof. intros H. destruct H. constructor. assumption. Qed.
-Lemma set_idx_rel m1 m2 i1 i2 : mem_rel m1 m2 -> R i1 i2 -> mem_rel (set_idx m1 i1) (set_idx m2 i2).
+Lemma set_idx_rel m1 m2 i1 i2 : gmem_rel m1 m2 -> R i1 i2 -> gmem_rel (set_idx m1 i1) (set_idx m2 i2).
 Proof. intros H Hi. destruct H. constructor. assumption. Qed.
-Lemma track_del_rel m1 m2 sl : mem_rel m1 m2 -> mem_rel (track_del sl m1) (track_del sl m2).
+Lemma track_del_rel m1 m2 sl : gmem_rel m1 m2 -> gmem_rel (track_del sl m1) (track_del sl m2).
 Proof. intros H. destruct H. constructor. assumption. Qed.
-Lemma add_delbytes_rel m1 m2 id n : mem_rel m1 m2 -> mem_rel (add_delbytes id n m1) (add_delbytes id n m2).
+Lemma add_delbytes_rel m1 m2 id n : gmem_rel m1 m2 -> gmem_rel (add_delbytes id n m1) (add_delbytes id n m2).
 Proof. intros H. destruct H. constructor. assumption. Qed.
-Lemma pick_rel P m1 m2 : mem_rel m1 m2 -> pick P m1 = pick P m2.
+Lemma pick_rel P m1 m2 : gmem_rel m1 m2 -> pick P m1 = pick P m2.
 Proof. intros H. destruct H. reflexivity. Qed.
 
 (* ---- the state ---- *)
-Lemma with_mem_rel s1 s2 m1 m2 : st_rel s1 s2 -> mem_rel m1 m2 -> st_rel (with_mem m1 s1) (with_mem m2 s2).
+Lemma with_mem_rel s1 s2 m1 m2 : gst_rel s1 s2 -> gmem_rel m1 m2 -> gst_rel (with_mem m1 s1) (with_mem m2 s2).
 Proof. intros H Hm. destruct H. constructor; [constructor|..]; assumption. Qed.
-Lemma clear_trace_rel s1 s2 : st_rel s1 s2 -> st_rel (clear_trace s1) (clear_trace s2).
+Lemma clear_trace_rel s1 s2 : gst_rel s1 s2 -> gst_rel (clear_trace s1) (clear_trace s2).
 Proof. intros H. destruct H. constructor; [assumption|assumption|constructor]. Qed.
 
 (* ---- events: need the two index implementations ---- *)
@@ -179,19 +220,19 @@ Ltac dsimp :=
   cbv beta iota delta [apply_ev file_removed set_segs set_orphans set_index set_overflow set_imeta
     set_dbmeta set_lock set_bac upd_seg d_segs d_orphans d_index d_overflow d_imeta d_dbmeta d_lock d_bac].
 
-Lemma file_removed_rel d1 d2 f : disk_rel d1 d2 -> disk_rel (file_removed f d1) (file_removed f d2).
+Lemma file_removed_rel d1 d2 f : gdisk_rel d1 d2 -> gdisk_rel (file_removed f d1) (file_removed f d2).
 Proof.
   intros H. destruct H as [segs orph i1 i2 ov g1 g2 dbm lk bac Hi Hg].
   destruct f; dsimp; constructor; try assumption; constructor.
 Qed.
 
-Lemma set_bac_rel d1 d2 l : disk_rel d1 d2 -> disk_rel (set_bac d1 l) (set_bac d2 l).
+Lemma set_bac_rel d1 d2 l : gdisk_rel d1 d2 -> gdisk_rel (set_bac d1 l) (set_bac d2 l).
 Proof. intros H. destruct H. dsimp. constructor; assumption. Qed.
-Lemma d_bac_rel d1 d2 : disk_rel d1 d2 -> d_bac d1 = d_bac d2.
+Lemma d_bac_rel d1 d2 : gdisk_rel d1 d2 -> d_bac d1 = d_bac d2.
 Proof. intros H. destruct H. reflexivity. Qed.
 
-Theorem apply_ev_rel d1 d2 e1 e2 : disk_rel d1 d2 -> ev_rel e1 e2 ->
-  disk_rel (apply_ev ops1 d1 e1) (apply_ev ops2 d2 e2).
+Theorem apply_ev_rel d1 d2 e1 e2 : gdisk_rel d1 d2 -> gev_rel e1 e2 ->
+  gdisk_rel (apply_ev ops1 d1 e1) (apply_ev ops2 d2 e2).
 Proof.
   intros Hd He. destruct He as [f|f|id seq off r|i1 i2 Hi|id seq m|i1 i2 Hi|sd|f n|f g|f|f].
   - destruct Hd as [segs orph j1 j2 ov g1 g2 dbm lk bac Hj Hg].
@@ -212,24 +253,24 @@ Proof.
   - cbv beta iota delta [apply_ev]. exact Hd.
 Qed.
 
-Lemma emit_rel s1 s2 e1 e2 : st_rel s1 s2 -> ev_rel e1 e2 -> st_rel (emit ops1 e1 s1) (emit ops2 e2 s2).
+Lemma emit_rel s1 s2 e1 e2 : gst_rel s1 s2 -> gev_rel e1 e2 -> gst_rel (emit ops1 e1 s1) (emit ops2 e2 s2).
 Proof.
   intros Hs He. destruct Hs as [m1 m2 d1 d2 t1 t2 Hm Hd Ht]. unfold emit. cbn [s_mem s_disk s_trace].
   constructor; [exact Hm|apply apply_ev_rel; assumption|].
   apply Forall2_app; [exact Ht|]. constructor; [exact He|constructor].
 Qed.
 
-Lemma emits_rel es1 es2 : Forall2 ev_rel es1 es2 -> forall s1 s2, st_rel s1 s2 ->
-  st_rel (emits ops1 es1 s1) (emits ops2 es2 s2).
+Lemma emits_rel es1 es2 : Forall2 gev_rel es1 es2 -> forall s1 s2, gst_rel s1 s2 ->
+  gst_rel (emits ops1 es1 s1) (emits ops2 es2 s2).
 Proof.
   unfold emits. induction 1 as [|e1 e2 es1 es2 He Hes IH]; intros s1 s2 Hs; cbn [fold_left]; [exact Hs|].
   apply IH. apply emit_rel; assumption.
 Qed.
 
 (* results of helpers that return a state and a memory *)
-Definition sm_rel (a : st1 * mem1) (b : st2 * mem2) : Prop := st_rel (fst a) (fst b) /\ mem_rel (snd a) (snd b).
+Definition sm_rel (a : st1 * mem1) (b : st2 * mem2) : Prop := gst_rel (fst a) (fst b) /\ gmem_rel (snd a) (snd b).
 
-Lemma seal_rel id s1 s2 m1 m2 : st_rel s1 s2 -> mem_rel m1 m2 ->
+Lemma seal_rel id s1 s2 m1 m2 : gst_rel s1 s2 -> gmem_rel m1 m2 ->
   sm_rel (seal ops1 id s1 m1) (seal ops2 id s2 m2).
 Proof.
   intros Hs Hm. unfold seal. rewrite (mem_rel_segs _ _ Hm).
@@ -238,7 +279,7 @@ Proof.
   split; cbn [fst snd]; [apply emit_rel; [exact Hs|constructor]|apply set_msegs_rel; exact Hm].
 Qed.
 
-Lemma swap_segment_rel s1 s2 m1 m2 : st_rel s1 s2 -> mem_rel m1 m2 ->
+Lemma swap_segment_rel s1 s2 m1 m2 : gst_rel s1 s2 -> gmem_rel m1 m2 ->
   sm_rel (swap_segment ops1 s1 m1) (swap_segment ops2 s2 m2).
 Proof.
   intros Hs Hm. unfold swap_segment. rewrite (mem_rel_segs _ _ Hm).
@@ -249,4 +290,534 @@ Proof.
     + apply set_cur_rel, set_maxseq_rel, set_msegs_rel. exact Hm.
 Qed.
 
+Lemma gprelude_rel P r s1 s2 m1 m2 : gst_rel s1 s2 -> gmem_rel m1 m2 ->
+  sm_rel (gprelude ops1 P r s1 m1) (gprelude ops2 P r s2 m2).
+Proof.
+  intros Hs Hm. unfold gprelude. rewrite (mem_rel_cur_seg _ _ Hm).
+  destruct (cur_seg m2) as [g|].
+  - destruct (sm_full (g_meta g) || (p_maxseg P <? g_size g + rsize r)); [|split; assumption].
+    pose proof (seal_rel (g_id g) s1 s2 m1 m2 Hs Hm) as Hseal.
+    destruct (seal ops1 (g_id g) s1 m1) as [s01 m01]. destruct (seal ops2 (g_id g) s2 m2) as [s02 m02].
+    destruct Hseal as [A B]. cbn [fst snd] in A, B. apply swap_segment_rel; assumption.
+  - apply swap_segment_rel; assumption.
+Qed.
+
+(* results of writeRecord *)
+Definition wr_rel (a : option (st1 * mem1 * N * N)) (b : option (st2 * mem2 * N * N)) : Prop :=
+  match a, b with
+  | None, None => True
+  | Some (s1, m1, id1, off1), Some (s2, m2, id2, off2) =>
+      gst_rel s1 s2 /\ gmem_rel m1 m2 /\ id1 = id2 /\ off1 = off2
+  | _, _ => False
+  end.
+
+Lemma gtail_rel r s1 s2 m1 m2 : gst_rel s1 s2 -> gmem_rel m1 m2 ->
+  wr_rel (gtail ops1 r s1 m1) (gtail ops2 r s2 m2).
+Proof.
+  intros Hs Hm. unfold gtail. rewrite (mem_rel_cur_seg _ _ Hm).
+  destruct (cur_seg m2) as [g|]; [|exact I].
+  rewrite (find_dseg_rel _ _ (g_id g) (st_rel_disk _ _ Hs)).
+  destruct (find_dseg (g_id g) (s_disk s2)) as [f|]; [|exact I].
+  destruct (negb ((f_seq f =? g_seq g) && (flen f =? g_size g))); [exact I|].
+  cbv zeta. unfold wr_rel. split; [apply emit_rel; [exact Hs|constructor]|].
+  split; [|split; reflexivity]. rewrite (mem_rel_segs _ _ Hm). apply set_msegs_rel. exact Hm.
+Qed.
+
+Theorem write_record_rel P r s1 s2 m1 m2 : gst_rel s1 s2 -> gmem_rel m1 m2 ->
+  wr_rel (write_record ops1 P r s1 m1) (write_record ops2 P r s2 m2).
+Proof.
+  intros Hs Hm. rewrite !write_record_g.
+  pose proof (gprelude_rel P r s1 s2 m1 m2 Hs Hm) as Hp.
+  destruct (gprelude ops1 P r s1 m1) as [s1' m1']. destruct (gprelude ops2 P r s2 m2) as [s2' m2'].
+  destruct Hp as [A B]. cbn [fst snd] in A, B. apply gtail_rel; assumption.
+Qed.
+
+Lemma do_sync_rel s1 s2 m1 m2 : gst_rel s1 s2 -> gmem_rel m1 m2 ->
+  gst_rel (do_sync ops1 s1 m1) (do_sync ops2 s2 m2).
+Proof.
+  intros Hs Hm. unfold do_sync. rewrite (mem_rel_cur_seg _ _ Hm).
+  destruct (cur_seg m2) as [g|]; [apply emit_rel; [exact Hs|constructor]|exact Hs].
+Qed.
+
+(* results of operations: a state and an output *)
+Definition so_rel (a : st1 * out) (b : st2 * out) : Prop := snd a = snd b /\ gst_rel (fst a) (fst b).
+
+Lemma finish_rel P s1 s2 m1 m2 : gst_rel s1 s2 -> gmem_rel m1 m2 ->
+  so_rel (finish ops1 P s1 m1) (finish ops2 P s2 m2).
+Proof.
+  intros Hs Hm. unfold finish. split; cbn [fst snd]; [reflexivity|].
+  apply with_mem_rel; [|exact Hm]. destruct (p_sync P); [apply do_sync_rel; assumption|exact Hs].
+Qed.
+
+Lemma remove_segment_rel id seq s1 s2 m1 m2 : gst_rel s1 s2 -> gmem_rel m1 m2 ->
+  gst_rel (remove_segment ops1 id seq s1 m1) (remove_segment ops2 id seq s2 m2).
+Proof.
+  intros Hs Hm. unfold remove_segment. cbv zeta.
+  pose proof (do_sync_rel s1 s2 m1 m2 Hs Hm) as Hsync.
+  rewrite (exists_file_rel _ _ (FSegMeta id seq) (st_rel_disk _ _ Hsync)).
+  rewrite (mem_rel_cur _ _ Hm), (mem_rel_segs _ _ Hm).
+  apply with_mem_rel.
+  - apply emit_rel; [|constructor].
+    destruct (exists_file (s_disk (do_sync ops2 s2 m2)) (FSegMeta id seq));
+      [apply emit_rel; [exact Hsync|constructor]|exact Hsync].
+  - destruct ((fst (m_cur m2) =? id) && (snd (m_cur m2) =? seq)).
+    + apply set_cur_rel, set_msegs_rel. exact Hm.
+    + apply set_msegs_rel. exact Hm.
+Qed.
+
+Lemma fold_seal_rel (l : list mseg) : forall a b, sm_rel a b ->
+  sm_rel (fold_left (fun sm g => seal ops1 (g_id g) (fst sm) (snd sm)) l a)
+         (fold_left (fun sm g => seal ops2 (g_id g) (fst sm) (snd sm)) l b).
+Proof.
+  induction l as [|g l IH]; intros a b Hab; cbn [fold_left]; [exact Hab|].
+  apply IH. destruct Hab as [A B]. apply seal_rel; assumption.
+Qed.
+
+(* ---- operations that never touch the index ---- *)
+Theorem sync_rel s1 s2 : gst_rel s1 s2 -> so_rel (db_sync ops1 s1) (db_sync ops2 s2).
+Proof.
+  intros Hs. unfold db_sync.
+  destruct (st_rel_mem_cases _ _ Hs) as [[E1 E2]|(m1 & m2 & E1 & E2 & Hm)]; rewrite E1, E2.
+  - split; [reflexivity|exact Hs].
+  - split; cbn [fst snd]; [reflexivity|apply do_sync_rel; assumption].
+Qed.
+
+Definition pick_res_rel (a : option (st1 * cursor)) (b : option (st2 * cursor)) : Prop :=
+  match a, b with
+  | None, None => True
+  | Some (s1, c1), Some (s2, c2) => gst_rel s1 s2 /\ c1 = c2
+  | _, _ => False
+  end.
+
+Theorem compact_pick_rel P s1 s2 : gst_rel s1 s2 ->
+  pick_res_rel (compact_pick ops1 P s1) (compact_pick ops2 P s2).
+Proof.
+  intros Hs. unfold compact_pick.
+  destruct (st_rel_mem_cases _ _ Hs) as [[E1 E2]|(m1 & m2 & E1 & E2 & Hm)]; rewrite E1, E2; [exact I|].
+  cbv zeta. rewrite (pick_rel P _ _ Hm).
+  pose proof (fold_seal_rel (pick P m2) (s1, m1) (s2, m2) (conj Hs Hm)) as Hf.
+  destruct (fold_left (fun sm g => seal ops1 (g_id g) (fst sm) (snd sm)) (pick P m2) (s1, m1)) as [s1' m1'].
+  destruct (fold_left (fun sm g => seal ops2 (g_id g) (fst sm) (snd sm)) (pick P m2) (s2, m2)) as [s2' m2'].
+  destruct Hf as [A B]. cbn [fst snd] in A, B. unfold pick_res_rel.
+  split; [apply with_mem_rel; assumption|reflexivity].
+Qed.
+
 End Rel.
+
+Arguments gdisk_rel {I1 I2} R. Arguments gev_rel {I1 I2} R. Arguments gmem_rel {I1 I2} R.
+Arguments gst_rel {I1 I2} R. Arguments sm_rel {I1 I2} R. Arguments so_rel {I1 I2} R.
+Arguments wr_rel {I1 I2} R. Arguments pick_res_rel {I1 I2} R.
+
+(* ================================================================================================ *)
+(** * 2. The chain index against the flat index *)
+
+Definition idx_rel (p : pindex) (l : flat) : Prop :=
+  PInv p /\ Permutation (all_slots p) l /\ px_nkeys p = nlen l.
+
+Lemma idx_rel_intro p l : PInv p -> Permutation (all_slots p) l -> idx_rel p l.
+Proof.
+  intros HI HP. split; [exact HI|]. split; [exact HP|].
+  destruct HI as (_ & _ & _ & _ & Hk). rewrite Hk. apply nlen_perm. exact HP.
+Qed.
+
+Lemma idx_rel_empty : idx_rel (ix_empty chain_ops) (ix_empty flat_ops).
+Proof. apply idx_rel_intro; [exact PInv_empty|]. cbn. constructor. Qed.
+
+(* at most one slot of the list is accepted by the callback *)
+Definition uniq (f : slot -> bool) (l : list slot) : Prop :=
+  forall a b, In a l -> In b l -> f a = true -> f b = true -> a = b.
+
+Lemma find_none_intro {A} (f : A -> bool) l : (forall x, In x l -> f x = false) -> find f l = None.
+Proof.
+  induction l as [|x l IH]; intros H; [reflexivity|]. cbn [find].
+  rewrite (H x (or_introl eq_refl)). apply IH. intros y Hy. apply H. right. exact Hy.
+Qed.
+
+(* ---- the flat operations: first hit in list order ---- *)
+Lemma fl_replace_split f new l l' o : fl_replace f new l = Some (l', o) ->
+  exists a b, l = a ++ o :: b /\ l' = a ++ new :: b /\ f o = true.
+Proof.
+  revert l'. induction l as [|s l IH]; intros l' H; cbn [fl_replace] in H; [discriminate|].
+  destruct (f s) eqn:Es.
+  - injection H as <- <-. exists [], l. auto.
+  - destruct (fl_replace f new l) as [[l0 o0]|]; [|discriminate]. injection H as <- <-.
+    destruct (IH _ eq_refl) as (a & b & -> & -> & Ho). exists (s :: a), b. auto.
+Qed.
+
+Lemma fl_replace_none_intro f new l : (forall x, In x l -> f x = false) -> fl_replace f new l = None.
+Proof.
+  induction l as [|s l IH]; intros H; [reflexivity|]. cbn [fl_replace].
+  rewrite (H s (or_introl eq_refl)), IH; [reflexivity|]. intros y Hy. apply H. right. exact Hy.
+Qed.
+
+Lemma fl_remove_split f l l' o : fl_remove f l = Some (l', o) ->
+  exists a b, l = a ++ o :: b /\ l' = a ++ b /\ f o = true.
+Proof.
+  revert l'. induction l as [|s l IH]; intros l' H; cbn [fl_remove] in H; [discriminate|].
+  destruct (f s) eqn:Es.
+  - injection H as <- <-. exists [], l. auto.
+  - destruct (fl_remove f l) as [[l0 o0]|]; [|discriminate]. injection H as <- <-.
+    destruct (IH _ eq_refl) as (a & b & -> & -> & Ho). exists (s :: a), b. auto.
+Qed.
+
+Lemma fl_remove_none_intro f l : (forall x, In x l -> f x = false) -> fl_remove f l = None.
+Proof.
+  induction l as [|s l IH]; intros H; [reflexivity|]. cbn [fl_remove].
+  rewrite (H s (or_introl eq_refl)), IH; [reflexivity|]. intros y Hy. apply H. right. exact Hy.
+Qed.
+
+Lemma fl_repoint_split l h seg off nseg noff l' : fl_repoint l h seg off nseg noff = Some l' ->
+  exists a o b, l = a ++ o :: b /\ l' = a ++ repointed o nseg noff :: b /\ fl_points h seg off o = true.
+Proof.
+  revert l'. induction l as [|s l IH]; intros l' H; cbn [fl_repoint] in H; [discriminate|].
+  destruct (fl_points h seg off s) eqn:Es.
+  - injection H as <-. exists [], s, l. auto.
+  - destruct (fl_repoint l h seg off nseg noff) as [l0|]; [|discriminate]. injection H as <-.
+    destruct (IH _ eq_refl) as (a & o & b & -> & -> & Ho). exists (s :: a), o, b. auto.
+Qed.
+
+Lemma fl_repoint_none l h seg off nseg noff : fl_repoint l h seg off nseg noff = None ->
+  forall x, In x l -> fl_points h seg off x = false.
+Proof.
+  induction l as [|s l IH]; intros H x Hx; [destruct Hx|]. cbn [fl_repoint] in H.
+  destruct (fl_points h seg off s) eqn:Es; [discriminate|].
+  destruct (fl_repoint l h seg off nseg noff) as [l0|]; [discriminate|].
+  destruct Hx as [<-|Hx]; [exact Es|exact (IH eq_refl x Hx)].
+Qed.
+
+Lemma fl_repoint_none_intro l h seg off nseg noff :
+  (forall x, In x l -> fl_points h seg off x = false) -> fl_repoint l h seg off nseg noff = None.
+Proof.
+  induction l as [|s l IH]; intros H; [reflexivity|]. cbn [fl_repoint].
+  rewrite (H s (or_introl eq_refl)), IH; [reflexivity|]. intros y Hy. apply H. right. exact Hy.
+Qed.
+
+Lemma fl_hit_true h m s : fl_hit h m s = true <-> sl_h s = h /\ m s = true.
+Proof. exact (hit_true h m s). Qed.
+Lemma fl_points_true h seg off s : fl_points h seg off s = true <-> sl_h s = h /\ sl_seg s = seg /\ sl_off s = off.
+Proof. exact (rp_hit_true h seg off s). Qed.
+
+Lemma not_true_false b : b <> true -> b = false.
+Proof. destruct b; congruence. Qed.
+
+(* ---- get ---- *)
+Theorem get_rel p l h m : idx_rel p l -> uniq (fl_hit h m) l -> px_get p h m = fl_get l h m.
+Proof.
+  intros (HI & HP & _) U. unfold fl_get. destruct (px_get p h m) as [s|] eqn:E.
+  - destruct (px_get_some _ _ _ _ HI E) as (Hin & Hh & Hm).
+    assert (Hl : In s l) by (eapply Permutation_in; eassumption).
+    assert (Hs : fl_hit h m s = true) by (apply fl_hit_true; auto).
+    destruct (find (fl_hit h m) l) as [s'|] eqn:F.
+    + apply find_some in F. destruct F as [F1 F2]. f_equal. apply U; assumption.
+    + pose proof (find_none _ _ F s Hl). congruence.
+  - symmetry. apply find_none_intro. intros x Hx. apply not_true_false. intros Hc.
+    apply fl_hit_true in Hc. destruct Hc as [Hh Hm].
+    assert (Hp : In x (all_slots p)) by (eapply Permutation_in; [symmetry|]; eassumption).
+    pose proof (px_get_none _ _ _ HI E x Hp Hh). congruence.
+Qed.
+
+(* ---- put ---- *)
+Theorem put_rel grow p l sl m p' op l' of :
+  idx_rel p l -> uniq (fl_hit (sl_h sl) m) l ->
+  px_put grow p sl m = (p', op) -> fl_put grow l sl m = (l', of) ->
+  op = of /\ idx_rel p' l'.
+Proof.
+  intros (HI & HP & _) U Ep Ef. destruct (px_put_spec _ _ _ _ _ _ HI Ep) as [HI' Hs].
+  unfold fl_put in Ef. destruct op as [o|].
+  - destruct Hs as (Hin & Hh & Hm & l1 & l2 & P1 & P2).
+    assert (Hl : In o l) by (eapply Permutation_in; eassumption).
+    assert (Ho : fl_hit (sl_h sl) m o = true) by (apply fl_hit_true; auto).
+    destruct (fl_replace (fl_hit (sl_h sl) m) sl l) as [[l0 o0]|] eqn:F.
+    + injection Ef as <- <-. destruct (fl_replace_split _ _ _ _ _ F) as (a & b & -> & -> & Ho0).
+      assert (o0 = o) by (apply U; [apply in_elt|exact Hl|exact Ho0|exact Ho]). subst o0.
+      split; [reflexivity|]. apply idx_rel_intro; [exact HI'|].
+      rewrite P2. apply Permutation_elt. apply (Permutation_app_inv l1 l2 a b o).
+      rewrite <- P1. exact HP.
+    + exfalso. clear Ef. revert F. generalize l Hl.
+      intros l0 Hl0 F. induction l0 as [|x l0 IH]; [destruct Hl0|]. cbn [fl_replace] in F.
+      destruct (fl_hit (sl_h sl) m x) eqn:Ex; [discriminate|].
+      destruct (fl_replace (fl_hit (sl_h sl) m) sl l0); [destruct p0; discriminate|].
+      destruct Hl0 as [->|Hl0]; [congruence|]. exact (IH Hl0 eq_refl).
+  - destruct Hs as [Hno P2].
+    rewrite fl_replace_none_intro in Ef.
+    + injection Ef as <- <-. split; [reflexivity|]. apply idx_rel_intro; [exact HI'|].
+      rewrite P2, HP. apply Permutation_cons_append.
+    + intros x Hx. apply not_true_false. intros Hc. apply fl_hit_true in Hc. destruct Hc as [Hh Hm].
+      assert (Hp : In x (all_slots p)) by (eapply Permutation_in; [symmetry|]; eassumption).
+      pose proof (Hno x Hp Hh). congruence.
+Qed.
+
+(* ---- delete ---- *)
+Theorem del_rel p l h m p' op l' of :
+  idx_rel p l -> uniq (fl_hit h m) l ->
+  px_del p h m = (p', op) -> fl_del l h m = (l', of) ->
+  op = of /\ idx_rel p' l'.
+Proof.
+  intros (HI & HP & Hk) U Ep Ef. destruct (px_del_spec _ _ _ _ _ HI Ep) as [HI' Hs].
+  unfold fl_del in Ef. destruct op as [o|].
+  - destruct Hs as (Hh & Hm & P1).
+    assert (Hl : In o l).
+    { eapply Permutation_in; [exact HP|]. eapply Permutation_in; [symmetry; exact P1|]. left. reflexivity. }
+    assert (Ho : fl_hit h m o = true) by (apply fl_hit_true; auto).
+    destruct (fl_remove (fl_hit h m) l) as [[l0 o0]|] eqn:F.
+    + injection Ef as <- <-. destruct (fl_remove_split _ _ _ _ F) as (a & b & -> & -> & Ho0).
+      assert (o0 = o) by (apply U; [apply in_elt|exact Hl|exact Ho0|exact Ho]). subst o0.
+      split; [reflexivity|]. apply idx_rel_intro; [exact HI'|].
+      apply Permutation_cons_app_inv with (a := o). rewrite <- P1. exact HP.
+    + pose proof (fl_remove_None _ _ F o Hl). congruence.
+  - destruct Hs as [-> Hno].
+    rewrite fl_remove_none_intro in Ef.
+    + injection Ef as <- <-. split; [reflexivity|]. split; [exact HI|]. split; assumption.
+    + intros x Hx. apply not_true_false. intros Hc. apply fl_hit_true in Hc. destruct Hc as [Hh Hm].
+      assert (Hp : In x (all_slots p)) by (eapply Permutation_in; [symmetry|]; eassumption).
+      pose proof (Hno x Hp Hh). congruence.
+Qed.
+
+(* ---- repoint (promoteRecord) ---- *)
+Theorem repoint_rel p l h seg off nseg noff :
+  idx_rel p l -> uniq (fl_points h seg off) l ->
+  opt_rel idx_rel (px_repoint p h seg off nseg noff) (fl_repoint l h seg off nseg noff).
+Proof.
+  intros (HI & HP & Hk) U.
+  destruct (px_repoint p h seg off nseg noff) as [p'|] eqn:Ep.
+  - destruct (px_repoint_some _ _ _ _ _ _ _ HI Ep) as (HI' & o & l1 & l2 & Hh & Hs & Ho & P1 & P2).
+    assert (Hl : In o l).
+    { eapply Permutation_in; [exact HP|]. eapply Permutation_in; [symmetry; exact P1|]. apply in_elt. }
+    assert (Hpt : fl_points h seg off o = true) by (apply fl_points_true; auto).
+    destruct (fl_repoint l h seg off nseg noff) as [l'|] eqn:F.
+    + constructor. destruct (fl_repoint_split _ _ _ _ _ _ _ F) as (a & o0 & b & -> & -> & Ho0).
+      assert (o0 = o) by (apply U; [apply in_elt|exact Hl|exact Ho0|exact Hpt]). subst o0.
+      apply idx_rel_intro; [exact HI'|]. rewrite P2. unfold repointed.
+      apply Permutation_elt. apply (Permutation_app_inv l1 l2 a b o). rewrite <- P1. exact HP.
+    + pose proof (fl_repoint_none _ _ _ _ _ _ F o Hl). congruence.
+  - rewrite fl_repoint_none_intro; [constructor|].
+    intros x Hx. apply not_true_false. intros Hc. apply fl_points_true in Hc.
+    assert (Hp : In x (all_slots p)) by (eapply Permutation_in; [symmetry|]; eassumption).
+    exact (px_repoint_none _ _ _ _ _ _ HI Ep x Hp Hc).
+Qed.
+
+Lemma count_rel p l : idx_rel p l -> ix_count chain_ops p = ix_count flat_ops l.
+Proof. intros (_ & _ & Hk). exact Hk. Qed.
+
+(* ================================================================================================ *)
+(** * 3. The database on the chain index against the database on the flat index *)
+
+Notation disk_rel := (gdisk_rel idx_rel).
+Notation ev_rel := (gev_rel idx_rel).
+Notation mem_rel := (gmem_rel idx_rel).
+Notation st_rel := (gst_rel idx_rel).
+
+Local Notation stp := (@DB.st pindex).
+Local Notation stf := (@DB.st flat).
+Local Notation diskf := (@DB.disk flat).
+Local Notation memf := (@DB.mem flat).
+
+(* ---- uniqueness of the slot the callbacks accept, from the invariant of the flat state ---- *)
+Lemma matchf_key (d : diskf) k sl : matchf d k sl = true -> slot_key d sl = k.
+Proof.
+  unfold matchf, slot_key. destruct (read_kv d sl) as [[k' v]|]; rewrite andb_true_iff; intros [_ H].
+  - apply key_eqb_eq in H. congruence.
+  - discriminate.
+Qed.
+
+Lemma uniq_hit P seed idx (d d1 : diskf) k :
+  idx_agrees P seed idx d ->
+  (forall id off r, rec_of d id off = Some r -> rec_of d1 id off = Some r) ->
+  uniq (fl_hit (p_hash P seed k) (matchf d1 k)) idx.
+Proof.
+  intros (Hok & Hnd & _) Hkeep a b Ha Hb Fa Fb.
+  apply fl_hit_true in Fa, Fb. destruct Fa as [_ Fa], Fb as [_ Fb]. apply matchf_key in Fa, Fb.
+  pose proof (proj1 (Forall_forall _ _) Hok a Ha) as Oa.
+  pose proof (proj1 (Forall_forall _ _) Hok b Hb) as Ob.
+  destruct (slot_keep P d d1 seed a Hkeep Oa) as (_ & _ & Ka).
+  destruct (slot_keep P d d1 seed b Hkeep Ob) as (_ & _ & Kb).
+  apply (NoDup_map_inj (slot_key d) idx); [exact Hnd|exact Ha|exact Hb|congruence].
+Qed.
+
+Lemma uniq_hit_same P seed idx (d : diskf) k :
+  idx_agrees P seed idx d -> uniq (fl_hit (p_hash P seed k) (matchf d k)) idx.
+Proof. intros H. apply (uniq_hit P seed idx d d k H). auto. Qed.
+
+(* two slots that point to the same record are the same slot *)
+Definition points_uniq (l : flat) : Prop := forall h seg off, uniq (fl_points h seg off) l.
+
+Lemma uniq_points P seed idx (d : diskf) : idx_agrees P seed idx d -> points_uniq idx.
+Proof.
+  intros (Hok & Hnd & _) h seg off a b Ha Hb Fa Fb.
+  apply fl_points_true in Fa, Fb. destruct Fa as (_ & Sa & Oa), Fb as (_ & Sb & Ob).
+  pose proof (proj1 (Forall_forall _ _) Hok a Ha) as Ka.
+  pose proof (proj1 (Forall_forall _ _) Hok b Hb) as Kb.
+  destruct (slot_ok_read P d seed a Ka) as (ra & Era & _ & _ & _ & _ & _ & Eka).
+  destruct (slot_ok_read P d seed b Kb) as (rb & Erb & _ & _ & _ & _ & _ & Ekb).
+  rewrite Sa, Oa in Era. rewrite Sb, Ob in Erb.
+  apply (NoDup_map_inj (slot_key d) idx); [exact Hnd|exact Ha|exact Hb|congruence].
+Qed.
+
+(* writeRecord on the flat state keeps every record readable (as write_record_spec, without [params_ok]) *)
+Lemma wr_keep P r (s : stf) (m : memf) s' m' id off :
+  InvLog m (s_disk s) -> room m -> rec_fits r ->
+  write_record flat_ops P r s m = Some (s', m', id, off) ->
+  m_idx m' = m_idx m /\
+  forall id' off' r', rec_of (s_disk s) id' off' = Some r' -> rec_of (s_disk s') id' off' = Some r'.
+Proof.
+  intros HI Hroom Hr E. rewrite write_record_eq in E.
+  destruct (wr_prelude_spec P r s m HI Hroom)
+    as (s1 & m1 & g & pre & E1 & HI1 & Hroom1 & Ec1 & Hnf1 & Eo1 & _ & _ & Ei1 & _).
+  rewrite E1 in E.
+  destruct (append_step m1 (s_disk s1) r g HI1 Hroom1 Hr Ec1 Hnf1)
+    as (f & Hfind & Efseq & Efl & Hlt & HI2 & Eo2 & Hrec).
+  cbn zeta in HI2, Eo2.
+  unfold wr_tail in E. rewrite Ec1, Hfind, Efseq, Efl, !N.eqb_refl in E. cbn [andb negb] in E.
+  injection E as <- <- <- <-. split; [exact Ei1|].
+  rewrite s_disk_emit. intros id' off' r' H.
+  assert (Hd0 : DiskOK (s_disk s)) by apply HI.
+  assert (Hd2 : DiskOK (apply_ev flat_ops (s_disk s1) (EAppend (g_id g) (g_seq g) (g_size g) r))) by apply HI2.
+  apply rec_of_olog; [apply Hd2|]. rewrite Eo2, Eo1.
+  apply in_or_app. left. apply rec_of_olog; [apply Hd0|exact H].
+Qed.
+
+Lemma so_rel_let (a : stp * out) (b : stf * out) :
+  so_rel idx_rel a b -> let '(sp', op) := a in let '(sf', of) := b in op = of /\ st_rel sp' sf'.
+Proof. destruct a, b. exact (fun H => H). Qed.
+
+Section Sim.
+Variable P : params.
+
+(* ---- Put ---- *)
+Lemma sim_put_so (sp : stp) (sf : stf) k v :
+  st_rel sp sf -> Inv P sf -> (exists m, s_mem sf = Some m /\ room m) ->
+  Forall byte k -> Forall byte v -> nlen k <= max_key_len -> nlen v <= max_val_len ->
+  so_rel idx_rel (db_put chain_ops P k v sp) (db_put flat_ops P k v sf).
+Proof.
+  intros Hs HI (mf & Emf & Hroom) Hbk Hbv Hk Hv.
+  destruct (st_rel_mem_cases _ _ _ Hs) as [[E1 E2]|(mp & mf' & E1 & E2 & Hm)]; [congruence|].
+  assert (mf' = mf) by congruence. subst mf'.
+  destruct (Inv_open P sf mf Emf HI) as (HL & Hidx & _).
+  assert (Hr : rec_fits (mkput k v)) by (apply rec_fits_mkput; assumption).
+  unfold db_put. rewrite E1, E2.
+  rewrite (proj2 (N.ltb_ge _ _) Hk), (proj2 (N.ltb_ge _ _) Hv).
+  rewrite (mem_rel_seed _ _ _ Hm). cbv zeta.
+  pose proof (write_record_rel idx_rel chain_ops flat_ops idx_rel_empty P (mkput k v) sp sf mp mf Hs Hm) as Hw.
+  destruct (write_record chain_ops P (mkput k v) sp mp) as [[[[s1p m1p] idp] offp]|];
+    destruct (write_record flat_ops P (mkput k v) sf mf) as [[[[s1f m1f] idf] offf]|] eqn:Ewf;
+    unfold wr_rel in Hw; try contradiction.
+  - destruct Hw as (Hs1 & Hm1 & -> & ->).
+    destruct (wr_keep P _ sf mf _ _ _ _ HL Hroom Hr Ewf) as [Ei Hkeep].
+    cbn [ix_put chain_ops flat_ops].
+    rewrite (matchf_rel _ _ _ k (st_rel_disk _ _ _ Hs1)).
+    set (sl := {| sl_h := p_hash P (m_seed mf) k; sl_seg := idf; sl_ks := u16 (nlen k);
+                  sl_vs := u32 (nlen v); sl_off := offf |}).
+    assert (U : uniq (fl_hit (sl_h sl) (matchf (s_disk s1f) k)) (m_idx m1f)).
+    { rewrite Ei. cbn [sl sl_h]. apply (uniq_hit P _ _ (s_disk sf)); assumption. }
+    pose proof (put_rel (p_grow P) (m_idx m1p) (m_idx m1f) sl (matchf (s_disk s1f) k)) as Hput.
+    destruct (px_put (p_grow P) (m_idx m1p) sl (matchf (s_disk s1f) k)) as [i2p oldp].
+    destruct (fl_put (p_grow P) (m_idx m1f) sl (matchf (s_disk s1f) k)) as [i2f oldf].
+    destruct (Hput _ _ _ _ (mem_rel_idx _ _ _ Hm1) U eq_refl eq_refl) as [<- Hi2].
+    apply finish_rel; [exact idx_rel_empty| |].
+    + apply emit_rel; [exact idx_rel_empty|exact Hs1|constructor; exact Hi2].
+    + apply set_idx_rel; [|exact Hi2]. destruct oldp; [apply track_del_rel|]; exact Hm1.
+  - split; [reflexivity|exact Hs].
+Qed.
+
+Theorem sim_put (sp : stp) (sf : stf) k v :
+  st_rel sp sf -> Inv P sf -> (exists m, s_mem sf = Some m /\ room m) ->
+  Forall byte k -> Forall byte v -> nlen k <= max_key_len -> nlen v <= max_val_len ->
+  let '(sp', op) := db_put chain_ops P k v sp in
+  let '(sf', of) := db_put flat_ops P k v sf in
+  op = of /\ st_rel sp' sf'.
+Proof. intros. apply so_rel_let. apply sim_put_so; assumption. Qed.
+
+(* ---- Delete (no size condition, no [room]: the index is consulted BEFORE the write) ---- *)
+Lemma sim_delete_so (sp : stp) (sf : stf) k :
+  st_rel sp sf -> Inv P sf ->
+  so_rel idx_rel (db_delete chain_ops P k sp) (db_delete flat_ops P k sf).
+Proof.
+  intros Hs HI.
+  destruct (st_rel_mem_cases _ _ _ Hs) as [[E1 E2]|(mp & mf & E1 & E2 & Hm)].
+  { unfold db_delete. rewrite E1, E2. split; [reflexivity|exact Hs]. }
+  destruct (Inv_open P sf mf E2 HI) as (HL & Hidx & _).
+  unfold db_delete. rewrite E1, E2.
+  rewrite (mem_rel_seed _ _ _ Hm). cbv zeta. cbn [ix_del chain_ops flat_ops].
+  rewrite (matchf_rel _ _ _ k (st_rel_disk _ _ _ Hs)).
+  pose proof (del_rel (m_idx mp) (m_idx mf) (p_hash P (m_seed mf) k) (matchf (s_disk sf) k)) as Hdel.
+  destruct (px_del (m_idx mp) (p_hash P (m_seed mf) k) (matchf (s_disk sf) k)) as [i1p oldp].
+  destruct (fl_del (m_idx mf) (p_hash P (m_seed mf) k) (matchf (s_disk sf) k)) as [i1f oldf].
+  destruct (Hdel _ _ _ _ (mem_rel_idx _ _ _ Hm) (uniq_hit_same P _ _ _ k Hidx) eq_refl eq_refl) as [<- Hi1].
+  destruct oldp as [o|].
+  - pose proof (write_record_rel idx_rel chain_ops flat_ops idx_rel_empty P (mkdel k) sp sf
+                  (track_del o mp) (track_del o mf) Hs (track_del_rel _ _ _ o Hm)) as Hw.
+    destruct (write_record chain_ops P (mkdel k) sp (track_del o mp)) as [[[[s1p m1p] idp] offp]|];
+      destruct (write_record flat_ops P (mkdel k) sf (track_del o mf)) as [[[[s1f m1f] idf] offf]|];
+      unfold wr_rel in Hw; try contradiction.
+    + destruct Hw as (Hs1 & Hm1 & -> & ->).
+      apply finish_rel; [exact idx_rel_empty| |].
+      * apply emit_rel; [exact idx_rel_empty|exact Hs1|constructor; exact Hi1].
+      * apply set_idx_rel; [|exact Hi1]. apply add_delbytes_rel. exact Hm1.
+    + split; [reflexivity|exact Hs].
+  - apply finish_rel; [exact idx_rel_empty|exact Hs|exact Hm].
+Qed.
+
+Theorem sim_delete (sp : stp) (sf : stf) k :
+  st_rel sp sf -> Inv P sf ->
+  let '(sp', op) := db_delete chain_ops P k sp in
+  let '(sf', of) := db_delete flat_ops P k sf in
+  op = of /\ st_rel sp' sf'.
+Proof. intros. apply so_rel_let. apply sim_delete_so; assumption. Qed.
+
+(* ---- reads ---- *)
+Theorem sim_get (sp : stp) (sf : stf) k :
+  st_rel sp sf -> Inv P sf -> db_get chain_ops P k sp = db_get flat_ops P k sf.
+Proof.
+  intros Hs HI.
+  destruct (st_rel_mem_cases _ _ _ Hs) as [[E1 E2]|(mp & mf & E1 & E2 & Hm)];
+    unfold db_get; rewrite E1, E2; [reflexivity|].
+  destruct (Inv_open P sf mf E2 HI) as (_ & Hidx & _).
+  rewrite (mem_rel_seed _ _ _ Hm). cbn [ix_get chain_ops flat_ops].
+  rewrite (matchf_rel _ _ _ k (st_rel_disk _ _ _ Hs)).
+  rewrite (get_rel _ _ _ _ (mem_rel_idx _ _ _ Hm) (uniq_hit_same P _ _ _ k Hidx)).
+  destruct (fl_get (m_idx mf) (p_hash P (m_seed mf) k) (matchf (s_disk sf) k)) as [sl|]; [|reflexivity].
+  rewrite (read_kv_rel _ _ _ sl (st_rel_disk _ _ _ Hs)). reflexivity.
+Qed.
+
+Theorem sim_get_append (sp : stp) (sf : stf) k buf :
+  st_rel sp sf -> Inv P sf -> db_get_append chain_ops P k buf sp = db_get_append flat_ops P k buf sf.
+Proof. intros Hs HI. unfold db_get_append. rewrite (sim_get sp sf k Hs HI). reflexivity. Qed.
+
+Theorem sim_has (sp : stp) (sf : stf) k :
+  st_rel sp sf -> Inv P sf -> db_has chain_ops P k sp = db_has flat_ops P k sf.
+Proof.
+  intros Hs HI.
+  destruct (st_rel_mem_cases _ _ _ Hs) as [[E1 E2]|(mp & mf & E1 & E2 & Hm)];
+    unfold db_has; rewrite E1, E2; [reflexivity|].
+  destruct (Inv_open P sf mf E2 HI) as (_ & Hidx & _).
+  rewrite (mem_rel_seed _ _ _ Hm). cbn [ix_get chain_ops flat_ops].
+  rewrite (matchf_rel _ _ _ k (st_rel_disk _ _ _ Hs)).
+  rewrite (get_rel _ _ _ _ (mem_rel_idx _ _ _ Hm) (uniq_hit_same P _ _ _ k Hidx)). reflexivity.
+Qed.
+
+(* Count needs no invariant at all *)
+Theorem sim_count (sp : stp) (sf : stf) :
+  st_rel sp sf -> db_count chain_ops sp = db_count flat_ops sf.
+Proof.
+  intros Hs.
+  destruct (st_rel_mem_cases _ _ _ Hs) as [[E1 E2]|(mp & mf & E1 & E2 & Hm)];
+    unfold db_count; rewrite E1, E2; [reflexivity|].
+  rewrite (count_rel _ _ (mem_rel_idx _ _ _ Hm)). reflexivity.
+Qed.
+
+(* ---- Sync, pickForCompaction: no index access ---- *)
+Theorem sim_sync (sp : stp) (sf : stf) :
+  st_rel sp sf ->
+  let '(sp', op) := db_sync chain_ops sp in
+  let '(sf', of) := db_sync flat_ops sf in
+  op = of /\ st_rel sp' sf'.
+Proof. intros Hs. apply so_rel_let. apply sync_rel; [exact idx_rel_empty|exact Hs]. Qed.
+
+Theorem sim_compact_pick (sp : stp) (sf : stf) :
+  st_rel sp sf ->
+  match compact_pick chain_ops P sp, compact_pick flat_ops P sf with
+  | None, None => True
+  | Some (sp', cp), Some (sf', cf) => st_rel sp' sf' /\ cp = cf
+  | _, _ => False
+  end.
+Proof. intros Hs. apply (compact_pick_rel idx_rel chain_ops flat_ops idx_rel_empty P sp sf Hs). Qed.
